@@ -47,9 +47,9 @@ theorem lookup_append_pad (ρ : CEnv) (bs : List Core.Binding) {b : Core.Binding
 /-- the ideal environment can be padded so that any given variables are bound -/
 theorem ideal_pad (bs : List Core.Binding) {n : Nat} {xs : List String} {env : Fun.Env}
     {ρ0 ρ : CEnv} {k : Fun.Stack} {c : Core.Term} {sb : List Core.Binding}
-    (he : EnvRel GP q n xs env ρ0) (hr : CRel GP q n k c ρ0) (hbd : BoundOn sb ρ0)
+    (he : EnvRel (GP p) q n xs env ρ0) (hr : CRel (GP p) q n k c ρ0) (hbd : BoundOn sb ρ0)
     (hag : AgreeOn sb ρ0 ρ) :
-    ∃ ρ0p, EnvRel GP q n xs env ρ0p ∧ CRel GP q n k c ρ0p ∧ BoundOn sb ρ0p ∧ AgreeOn sb ρ0p ρ ∧
+    ∃ ρ0p, EnvRel (GP p) q n xs env ρ0p ∧ CRel (GP p) q n k c ρ0p ∧ BoundOn sb ρ0p ∧ AgreeOn sb ρ0p ρ ∧
       BoundOn bs ρ0p := by
   refine ⟨ρ0 ++ bs.map (fun b => (b.var, Core.Val.int 0)), ?_, ?_, ?_, ?_, ?_⟩
   · refine .of_get fun y hy => ?_
@@ -98,21 +98,22 @@ theorem guard_sim (X : Ctx p q) {binders : List String} {ty : Option Fun.Ty} {si
     {core : CwcFn} {c : Core.Term} {st : CompileState} {s : Core.Stmt} {st' : CompileState}
     {n : Nat} {k : Fun.Stack} {env : Fun.Env} {ρ0 ρ : CEnv} {out : Out} {sf : Fun.State} {b : Bool}
     (xs : List String)
-    (hcomp : guarded binders ty site core c st = .ok (s, st'))
+    (hcomp : guarded binders ty site core c st = .ok (s, st')) (hnct : ncdO p ty = true)
     (hbu : ∀ x ∈ binders, x ∈ st.usedVars) (hxs : ∀ x ∈ xs, x ∈ st.usedVars)
-    (hcn : ConsNames c st n) (he : EnvRel GP q n xs env ρ0) (hr : CRel GP q n k c ρ0)
+    (hcn : ConsNames c st n) (he : EnvRel (GP p) q n xs env ρ0) (hr : CRel (GP p) q n k c ρ0)
     (hbd : BoundOn (tfvStmt s []) ρ0) (hag : AgreeOn (tfvStmt s []) ρ0 ρ)
     (Hcore : ∀ c' st1 s' ρ0' ρ', core c' st1 = .ok (s', st') → FS st st1 → ConsNames c' st1 n →
       (∀ b ∈ tfvTerm c' [], b.var.name ∉ binders) →
-      EnvRel GP q n xs env ρ0' → CRel GP q n k c' ρ0' → BoundOn (tfvStmt s' []) ρ0' →
-      AgreeOn (tfvStmt s' []) ρ0' ρ' → Chunk p q (R q) b sf ⟨s', ρ', out, n⟩) :
-    Chunk p q (R q) b sf ⟨s, ρ, out, n⟩ := by
+      EnvRel (GP p) q n xs env ρ0' → CRel (GP p) q n k c' ρ0' → BoundOn (tfvStmt s' []) ρ0' →
+      AgreeOn (tfvStmt s' []) ρ0' ρ' → Chunk p q (R p q) b sf ⟨s', ρ', out, n⟩) :
+    Chunk p q (R p q) b sf ⟨s, ρ, out, n⟩ := by
   rw [guarded_eq_of_binders_used binders ty site core c st hbu] at hcomp
   by_cases hbo : bindersOccurFree binders c = true
   · rw [if_pos hbo] at hcomp
-    cases ty with
-    | none => simp at hcomp
-    | some t =>
+    obtain ⟨t, rfl, hnc⟩ := X.cod.ncd hnct
+    have htriv : True := trivial
+    cases htriv with
+    | intro =>
       simp only at hcomp
       cases hx : core (.var .cns ⟨(freshCovar st).1, 0⟩ (compileTy t)) (freshCovar st).2 with
       | error e => simp [hx] at hcomp
@@ -123,8 +124,8 @@ theorem guard_sim (X : Ctx p q) {binders : List String} {ty : Option Fun.Ty} {si
         have hagc : AgreeOn (tfvTerm c []) ρ0 ρ := hag.mono fun y hy => mem_tfv_cut.2 (.inr hy)
         have hrρ := hr.agree hagc
         cases hrρ with
-        | @mk _ _ _ cv hcv hk hi hb' =>
-          have hs := step_cut_mu (q := q) X.hq (cty := compileTy t) (ty := compileTy t)
+        | @mk _ _ _ cv hcv hk hi hb' _ =>
+          have hs := step_cut_mu (q := q) (cty := compileTy t) (ty := compileTy t) hnc
             (a := ⟨(freshCovar st).1, 0⟩) (s := s1) (ρ := ρ) (out := out) (n := n) hi hcv .prd
           have ha_fresh := freshCovar_not_mem st
           have ha_sig := freshCovar_ne_sig st
@@ -143,7 +144,7 @@ theorem guard_sim (X : Ctx p q) {binders : List String} {ty : Option Fun.Ty} {si
             have : (freshCovar st).1 = y := by cases e; rfl
             exact ha_fresh (this ▸ hxs y hy)
           · exact .mk (by simp [Core.cnsVal, lookup_cons]) hk trivial
-              (fun b hb => by rw [mem_tfv_var] at hb; subst hb; exact ⟨_, lookup_cons_self _ _ _⟩)
+              (fun b hb => by rw [mem_tfv_var] at hb; subst hb; exact ⟨_, lookup_cons_self _ _ _⟩) hnc
           · exact BoundOn.cons (hbd.mono fun y hy => by
               obtain ⟨h1, h2⟩ := List.mem_filter.1 hy
               exact mem_tfv_cut.2 (.inl (mem_tfv_mu_of h1 (by simpa using h2))))
